@@ -15,12 +15,14 @@ import edzed
 from .. import vtime
 
 ID = 'C08'
-RULE = ("circuits of 1-5 blocks over 6 block kinds (probe SBlock, probe AddonMainTask block with "
-        "init_async/stop_async/main task, probe CBlock, real Timer, OutputFunc, OutputAsync; '_ctrl' created by "
+RULE = ("circuits of 1-5 blocks over 8 block kinds (probe SBlock, probe AddonMainTask block with "
+        "init_async/stop_async/main task, probe AddonAsync block with init_async only, probe AddonAsync block with "
+        "stop_async and no task incl. stop_timeout=0, probe CBlock, real Timer, OutputFunc, OutputAsync; '_ctrl' created by "
         "Event.shutdown()/Event.abort()) with a fault script per phase (start, restore, init_async, "
         "init_regular, init_from_value, first evaluation, event handler, main task, stop, stop_async) x "
         "termination cause (shutdown(), abort(), ctrl shutdown/abort event, SIGTERM, supporting task "
-        "end/failure, handler error; before start / at the yield after start / during async init / "
+        "end/failure, handler error, shutdown/abort control event sent from INSIDE the simulator task by a CBlock's "
+        "on_output alone or followed by an exception of the next evaluated CBlock in the same burst; before start / at the yield after start / during async init / "
         "running; optional further request during clean-up) x runner (run_forever task, edzed.run); "
         "the whole single-fault x cause x instant grid on a fixed 4-block circuit (both tiers) plus 6 000 / 400 000 "
         "random circuits; order-dependent scenarios are re-run with fresh allocations until both stop orders "
@@ -93,7 +95,7 @@ class AsyncProbeMixin:
         p = getattr(self, 'x_p', {})
         try:
             await super().stop_async()
-            if isinstance(self, PA):
+            if isinstance(self, (PA, PAP)):
                 if p.get('sdur'):
                     await asyncio.sleep(p['sdur'] / 1000)
                 if 'Q' in p.get('flags', ''):
@@ -160,20 +162,36 @@ class PA(AsyncProbeMixin, ProbeMixin, edzed.AddonMainTask, PSCore):
             raise
 
 
+async def _probe_init_async(self):
+    p = self.x_p
+    k = REC.idx[self.name]
+    try:
+        await asyncio.sleep(p['idur'] / 1000)
+    except asyncio.CancelledError:
+        REC.initres[k] = (REC.now(), 'cancelled')
+        raise
+    if 'A' in p['flags']:
+        REC.initres[k] = (REC.now(), 'err')
+        raise Boom(f'{self.name}.init_async')
+    REC.initres[k] = (REC.now(), 'ok')
+    self.set_output(1)
+
+
 class PAI(PA):
-    async def init_async(self):
-        p = self.x_p
-        k = REC.idx[self.name]
-        try:
-            await asyncio.sleep(p['idur'] / 1000)
-        except asyncio.CancelledError:
-            REC.initres[k] = (REC.now(), 'cancelled')
-            raise
-        if 'A' in p['flags']:
-            REC.initres[k] = (REC.now(), 'err')
-            raise Boom(f'{self.name}.init_async')
-        REC.initres[k] = (REC.now(), 'ok')
-        self.set_output(1)
+    init_async = _probe_init_async
+
+
+class PAInit(ProbeMixin, edzed.AddonAsync, PSCore):
+    """AddonAsync block with init_async only (like InitAsync / AddonAsyncInit blocks): no stop_async"""
+    init_async = _probe_init_async
+
+
+class PAP(AsyncProbeMixin, ProbeMixin, edzed.AddonAsync, PSCore):
+    """AddonAsync block with stop_async, without a task; stop_timeout=0 disables the asynchronous clean-up"""
+
+
+class PInput(ProbeMixin, edzed.Input):
+    pass
 
 
 class PC(ProbeMixin, edzed.FuncBlock):
@@ -273,9 +291,38 @@ def build(scn, notes):
             if 't' in flags:
                 kw['stop_data'] = {'value': 'STOP'}
             blk = POutA(name, coro=coro, mode='wait', on_error=None, stop_timeout=b['sto'] / 1000, x_p=p, **kw)
+        elif kind == 'ainit':
+            kw = {'initdef': 3} if 'd' in flags else {}
+            blk = PAInit(name, x_p=p, persistent='r' in flags, init_timeout=b['ito'] / 1000, **kw)
+            if 'r' in flags:
+                storage[str(blk)] = 7
+        elif kind == 'aplain':
+            kw = {'initdef': 3} if 'd' in flags else {}
+            blk = PAP(name, x_p=p, persistent='r' in flags, stop_timeout=b['sto'] / 1000, **kw)
+            if 'r' in flags:
+                storage[str(blk)] = 7
+        elif kind == 'inp':
+            blk = PInput(name, initdef=1, x_p=p)
+        elif kind == 'valid':
+            # x != 0; a False output sends 'put' to the trigger block, whose on_success is the control event
+            trig_name = next(names[j] for j, bb in enumerate(blocks) if bb['kind'] == 'trig')
+            inp_name = next(names[j] for j, bb in enumerate(blocks) if bb['kind'] == 'inp')
+            blk = PC(name, func=lambda x: x != 0, x_p=p,
+                     on_output=edzed.Event(trig_name, 'put', efilter=lambda data: not data['value'])
+                     ).connect(inp_name)
+        elif kind == 'ratio':
+            inp_name = next(names[j] for j, bb in enumerate(blocks) if bb['kind'] == 'inp')
+            valid_name = next(names[j] for j, bb in enumerate(blocks) if bb['kind'] == 'valid')
+            if scn['cause'].get('raise_after'):
+                def func(x, _ok):
+                    return 1 / x            # ZeroDivisionError right after the control event
+            else:
+                def func(x, _ok):
+                    return 1 / x if x else 0
+            blk = PC(name, func=func, x_p=p).connect(inp_name, valid_name)
         elif kind == 'trig':
             ck = scn['cause']['kind']
-            if ck == 'ctrlShutdown':
+            if ck in ('ctrlShutdown', 'innerShutdown'):
                 try:
                     ev = edzed.Event.shutdown()
                 except AttributeError:
@@ -294,14 +341,18 @@ def build(scn, notes):
     return names, objs
 
 
-MODEL_KIND = {'trig': 'sync'}
+MODEL_KIND = {'trig': 'sync', 'inp': 'sync', 'valid': 'cblock', 'ratio': 'cblock'}
 
 
 def blk_line(b):
     kind = MODEL_KIND.get(b['kind'], b['kind'])
     flags = b.get('flags', '')
-    if b['kind'] in ('timer', 'outf', 'outa', 'ctrl', 'cblock', 'trig'):
+    if b['kind'] in ('timer', 'outf', 'outa', 'ctrl', 'cblock', 'trig', 'valid', 'ratio'):
         flags += 's'
+    if b['kind'] == 'inp':
+        flags += 'd'
+    if b['kind'] == 'ainit':
+        flags += 'a'
 
     def opt(v):
         return '-' if v is None else str(v)
@@ -310,7 +361,7 @@ def blk_line(b):
 
 
 def is_async_stop(b):
-    return b['kind'] in ('async', 'outa') and b.get('sto', 1) > 0
+    return b['kind'] in ('async', 'outa', 'aplain') and b.get('sto', 1) > 0
 
 
 # ------------------------------------------------------------------ one run on the real simulator
@@ -337,6 +388,13 @@ def run_once(scn, pad=0):
             trig = next(o for o, b in zip(objs, scn['blocks']) if b['kind'] == 'trig')
             try:
                 edzed.ExtEvent(trig).send(1)
+            except edzed.EdzedInvalidState:
+                notes['request_refused'] = True
+        elif kind in ('innerShutdown', 'innerAbort'):
+            # the value 0 makes 'valid' send the control event from inside the simulator task
+            inp = next(o for o, b in zip(objs, scn['blocks']) if b['kind'] == 'inp')
+            try:
+                edzed.ExtEvent(inp).send(0)
             except edzed.EdzedInvalidState:
                 notes['request_refused'] = True
         elif kind == 'handlerErr':
@@ -499,7 +557,7 @@ def run_once(scn, pad=0):
     return out
 
 
-ERROR_KINDS = ('abort', 'ctrlAbort', 'handlerErr')
+ERROR_KINDS = ('abort', 'ctrlAbort', 'handlerErr', 'innerAbort')
 
 
 def task_label(t, rec):
@@ -537,7 +595,8 @@ def order_sensitive(scn):
 def encode_run(scn, r):
     cause = scn['cause']
     lines = [f"lifecycle reset {cause['kind']} {int(bool(cause.get('before')))} {cause['time']} "
-             f"{int(bool(cause.get('late')))} {int(bool(scn.get('wait_init')))}"]
+             f"{int(bool(cause.get('late')))} {int(bool(scn.get('wait_init')))} "
+             f"{int(bool(cause.get('raise_after')))}"]
     trace = ['ok']
     for i, b in enumerate(scn['blocks']):
         lines.append(blk_line(b))
@@ -593,7 +652,8 @@ def run_impl(scn):
             break
     del _PAD[:]
     cause = scn['cause']
-    tags.append('cause=' + ('before-' if cause.get('before') else '') + cause['kind'])
+    tags.append('cause=' + ('before-' if cause.get('before') else '') + cause['kind']
+                + ('+exception' if cause.get('raise_after') else ''))
     tags.append('runner=' + scn.get('runner', 'task'))
     if sensitive:
         tags.append('stop-order-both-seen' if len(seen_orders) >= 2 else 'stop-order-one-only')
@@ -728,9 +788,15 @@ def finish(blocks, cause, rng=None, runner=None, wait_init=None):
             b.setdefault('cdur', 0)
             b.setdefault('sdur', 10 * (i + 1))
             b.setdefault('sto', 100 + 10 * i + 3)
-        elif b['kind'] == 'outa':
+        elif b['kind'] in ('outa', 'aplain'):
             b.setdefault('sdur', 10 * (i + 1))
             b.setdefault('sto', 100 + 10 * i + 3)
+        elif b['kind'] == 'ainit':
+            b.setdefault('idur', 10 * (i + 1))
+            b.setdefault('ito', 10 * (i + 4) + 3)
+    if cause['kind'] in ('innerShutdown', 'innerAbort'):
+        # inp -> valid (x != 0) --on_output(False)--> trig --on_success--> _ctrl;  inp, valid -> ratio (1/x)
+        blocks += [mk('inp'), mk('valid'), mk('ratio'), mk('trig'), mk('ctrl')]
     if cause['kind'] in ('ctrlShutdown', 'ctrlAbort'):
         if not any(b['kind'] == 'trig' for b in blocks):
             pos = rng.randrange(len(blocks) + 1) if rng else 0
@@ -749,8 +815,8 @@ def finish(blocks, cause, rng=None, runner=None, wait_init=None):
     return scn
 
 
-CAUSES_TASK = ['shutdown', 'abort', 'ctrlShutdown', 'ctrlAbort', 'handlerErr']
-CAUSES_RUN = ['supportEnd', 'supportFail', 'sigterm', 'shutdown', 'abort']
+CAUSES_TASK = ['shutdown', 'abort', 'ctrlShutdown', 'ctrlAbort', 'handlerErr', 'innerShutdown', 'innerAbort']
+CAUSES_RUN = ['supportEnd', 'supportFail', 'sigterm', 'shutdown', 'abort', 'innerShutdown', 'innerAbort']
 
 
 def base_circuit():
@@ -792,6 +858,12 @@ def grid(tier):
             continue
         if ck in ('ctrlShutdown', 'ctrlAbort') and t == 0:
             continue        # the trigger block is not initialised yet: an event would initialise it early
+        if ck in ('innerShutdown', 'innerAbort'):
+            if t < 200:
+                continue    # CBlocks are evaluated by the running simulator only
+            for ra in (False, True):
+                yield finish(blocks, {**cause, 'raise_after': ra})
+            continue
         yield finish(blocks, cause)
 
 
@@ -819,6 +891,16 @@ def defect_scenarios():
     yield finish([mk('sync', 'sG')], {'kind': 'shutdown', 'time': 205}, wait_init=True)
     # a main task that needs time to finish after its cancellation, no other asynchronous clean-up
     yield finish([mk('async', 's', cdur=4, sdur=0, sto=53), mk('sync', 's')], {'kind': 'shutdown', 'time': 205})
+    # AddonAsync blocks without an (enabled) asynchronous clean-up belong to the synchronous set
+    yield finish([mk('ainit', 's'), mk('aplain', 's', sto=0), mk('aplain', 's'), mk('sync', 's'),
+                  mk('async', 's')], {'kind': 'shutdown', 'time': 205})
+    yield finish([mk('ainit', ''), mk('aplain', 's', sto=0)], {'kind': 'supportEnd', 'time': 205})
+    # control event sent from inside the simulator task (on_output of a CBlock), alone and followed by an
+    # exception of the next evaluated CBlock: the pending cancellation must not reach the clean-up
+    for ck, ra in (('innerShutdown', True), ('innerShutdown', False), ('innerAbort', True), ('innerAbort', False)):
+        yield finish(base_circuit() + [mk('outa', 't'), mk('timer', 'm'), mk('outf', 't', ons=5)],
+                     {'kind': ck, 'time': 805, 'raise_after': ra})
+        yield finish([mk('sync', 's')], {'kind': ck, 'time': 805, 'raise_after': ra})
     # start() failure after an output block whose stop_data event goes to a timer that was never started
     yield finish([mk('outf', 't', ons=2), mk('sync', 'sS'), mk('timer')], {'kind': 'shutdown', 'time': 205})
 
@@ -829,10 +911,11 @@ def random_scenario(rng):
     mf_pool = [0, 7, 27, 57, 127, 257]
     zero_sdur_used = False
     for i in range(n):
-        kind = rng.choice(['sync', 'sync', 'async', 'async', 'async', 'cblock', 'timer', 'outf', 'outa'])
+        kind = rng.choice(['sync', 'sync', 'async', 'async', 'async', 'cblock', 'timer', 'outf', 'outa',
+                           'ainit', 'aplain'])
         fl = ''
         b = mk(kind)
-        if kind in ('sync', 'async'):
+        if kind in ('sync', 'async', 'ainit', 'aplain'):
             r = rng.random()
             fl = 's' if r < 0.6 else ('d' if r < 0.8 else ('sd' if r < 0.9 else ''))
             if rng.random() < 0.15:
@@ -860,6 +943,16 @@ def random_scenario(rng):
             if rng.random() < 0.15:
                 b['mf'] = mf_pool.pop(rng.randrange(len(mf_pool)))     # pairwise distinct
                 b['mret'] = rng.random() < 0.4
+        if kind == 'ainit':
+            if rng.random() < 0.15:
+                fl += 'A'
+            b['idur'] = 10 * (i + 1) + 100 * rng.choice([0, 0, 1, 4])
+            b['ito'] = rng.choice([23, 43, 63, 153, 553, 0])
+        if kind == 'aplain':
+            if rng.random() < 0.15:
+                fl += 'Q'
+            b['sdur'] = 10 * (i + 1) + 100 * rng.randrange(0, 2)
+            b['sto'] = rng.choice([0, 0, 33, 53, 83, 123, 253])     # 0: asynchronous clean-up disabled
         if kind == 'cblock' and rng.random() < 0.25:
             fl += 'C'
         if kind == 'timer' and rng.random() < 0.5:
@@ -890,8 +983,10 @@ def random_scenario(rng):
         else:
             cause['target'] = rng.choice(tgt)
             cause['time'] = 805        # the circuit is running: after the longest asynchronous initialisation
-    if cause['kind'] in ('ctrlShutdown', 'ctrlAbort'):
+    if cause['kind'] in ('ctrlShutdown', 'ctrlAbort', 'innerShutdown', 'innerAbort'):
         cause['time'] = max(cause['time'], 805)
+    if cause['kind'] in ('innerShutdown', 'innerAbort'):
+        cause['raise_after'] = rng.random() < 0.6
     if runner == 'run' and cause['time'] == 0:
         cause['time'] = 5
     if rng.random() < 0.04:
@@ -913,7 +1008,7 @@ def shrink(scn):
     """drop a block (references by index are adjusted), drop fault flags, drop the late request"""
     blocks = scn['blocks']
     for i in reversed(range(len(blocks))):
-        if blocks[i]['kind'] in ('trig', 'ctrl') or len(blocks) == 1:
+        if blocks[i]['kind'] in ('trig', 'ctrl', 'inp', 'valid', 'ratio') or len(blocks) == 1:
             continue
         if scn['cause'].get('target') == i:
             continue
